@@ -15,7 +15,7 @@ var c18Srcs = []string{"int", "int32", "int64", "float32", "float64", "decstr", 
 var c18Dsts = []string{"Int", "Int32", "Int64", "Float32", "Float64"}
 
 func C18_Jobs() []string {
-	out := []string{"literal/huge-strings", "literal/decimal-forms"}
+	out := []string{"literal/huge-strings", "literal/decimal-forms", "literal/float32-widening"}
 	for _, s := range c18Srcs {
 		for _, d := range c18Dsts {
 			if s == "fltstr" && d[0] == 'I' {
@@ -71,6 +71,20 @@ func c18CheckIssue(errs z.ZogIssueList, untouched bool) {
 }
 
 func C18_Run(job string) {
+	if job == "literal/float32-widening" {
+		// a float32 input reaches a Float64 destination as the same number (every float32 is a
+		// float64): concrete witnesses whose shortest decimal form is another float64
+		xs := []float32{0.1, 0.2, 0.3, 1.0 / 3, 16777216, 123456.79, 1e-45, 1.1754944e-38, 3.4028235e38, -0.7, 2.5, 0}
+		x := xs[v.Choice("x", len(xs))]
+		var d float64
+		var dd struct{ F float64 }
+		e1 := z.Float64().Parse(x, &d)
+		e2 := z.Struct(z.Schema{"f": z.Float64()}).Parse(map[string]any{"f": x}, &dd)
+		v.Cover("success")
+		v.Assert(len(e1) == 0 && e2 == nil, "C18:representable-value-rejected")
+		v.Assert(d == float64(x) && dd.F == float64(x), "C18:value-changed")
+		return
+	}
 	if job == "literal/decimal-forms" {
 		// an integer schema reads a string as a DECIMAL numeral (sign, digits, leading zeros
 		// allowed) and reports everything else: no radix prefixes, no digit separators
